@@ -127,12 +127,23 @@ func Read(reader *bufio.Reader) (*Header, error) {
 	// Peek and check signature of PROXY v1
 	signature, err := reader.Peek(5)
 	if err != nil {
+		// a short stream starting with 'P' that already differs from "PROXY" has no header
+		if len(signature) > 0 && signature[0] == SIGV1[0] && !bytes.HasPrefix(SIGV1, signature) {
+			state.ProxyErrNoProxyProtocol.Inc(1)
+			return nil, ErrNoProxyProtocol
+		}
 		state.ProxyErrReadHeader.Inc(1)
 		return nil, err
 	}
 	if bytes.Equal(signature[:5], SIGV1) {
 		state.ProxyMatchedV1Signature.Inc(1)
 		return parseVersion1(reader)
+	}
+	// five bytes starting with 'P' other than "PROXY" cannot become a v2 signature:
+	// do not wait for (or fail on) 12 bytes
+	if signature[0] == SIGV1[0] {
+		state.ProxyErrNoProxyProtocol.Inc(1)
+		return nil, ErrNoProxyProtocol
 	}
 
 	// Peek and check signature of PROXY v2
